@@ -138,7 +138,7 @@ Theorem C06_absent_key_has_no_deadline : forall d now nowms args hint k,
 Proof. exact exec_absent_no_deadline. Qed.
 Print Assumptions C06_absent_key_has_no_deadline.
 
-(* (SET) When SET writes (NX/XX condition met, string or absent key, valid options) the key holds
+(* (SET) When SET writes (NX/XX condition met; a key of another type only without GET; valid options) the key holds
    the new value and its deadline is [set_deadline]: EXAT n -> n, PX n -> now + ceil(n/1000),
    EX n -> now + n, KEEPTTL -> the deadline it had, none of these -> no deadline.  With GET the
    reply is the old value.  Other keys are untouched. *)
@@ -177,8 +177,9 @@ Theorem C06_px_granularity : forall nowms n, 0 < n ->
 Proof. exact px_deadline_granularity. Qed.
 Print Assumptions C06_px_granularity.
 
-(* (SET, not written) NX on a visible key, XX on an invisible one, a key of another type or an
-   argument error: the step changes nothing -- in particular no deadline. *)
+(* (SET, not written) NX on a visible key, XX on an invisible one, GET on a key of another type, or
+   an argument error: the step changes nothing -- in particular no deadline.  (Without GET a key of
+   another type is overwritten like a string: [set_writes].) *)
 Theorem C06_deadline_lifecycle_set_skips : forall d now nowms c k v opts hint,
   db_wf d -> lower c = B "set" ->
   (forall o, set_parse opts setopts0 = Some o ->
